@@ -246,6 +246,10 @@ def generate(model: Model):
             for fn in (x for x in cdef.body if isinstance(x, ast.FunctionDef) and x.name == "_simplify_down"):
                 # rename the override away: the class inherits the logical rule again
                 yield "mutant", f"revert:physical-twin-inherits-logical-rule:{cdef.name}", "R11h", mod.rel, _splice(mod.source, fn, ast.unparse(fn).replace("def _simplify_down(", "def _simplify_down_disabled(", 1).replace("\n", "\n    "))
+        for cdef in (x for x in tree.body if isinstance(x, ast.ClassDef) and x.name in ("Head", "Tail")):
+            for fn in (x for x in cdef.body if isinstance(x, ast.FunctionDef) and x.name == "_simplify_up"):
+                for c_ in (x for x in ast.walk(fn) if isinstance(x, ast.Compare) and isinstance(x.ops[0], ast.In) and ast.unparse(x.comparators[0]) == "parent._parameters"):
+                    yield "mutant", f"revert:unguarded-parent-parameter:{cdef.name}", "R01k", mod.rel, _splice(mod.source, c_, "True")
         for cdef in (x for x in tree.body if isinstance(x, ast.ClassDef) and x.name == "ResetIndex"):
             for fn in (x for x in cdef.body if isinstance(x, ast.FunctionDef) and x.name == "_simplify_up"):
                 for st in (x for x in ast.walk(fn) if isinstance(x, ast.Assign) and ast.unparse(x.value) == "predicate.substitute(self, self.frame)"):
